@@ -90,16 +90,36 @@ vt_proof! { unwind = 4; fn c16_fold_float() {
 
 fn not_distinct(a: Cell, b: Cell) -> bool { match (a, b) { (Cell::Null, Cell::Null) => true, (Cell::Int(x), Cell::Int(y)) => x == y, _ => false } }
 
-// @vt prop=C16 tier=quick bound="GROUP BY on two integer columns: ALL pairs of rows (each grouping value NULL or any i64)" outside="more than two grouping columns; text keys (key injectivity per type: C26)" timeout=900
-vt_proof! { unwind = 12; fn c16_group_key_two_int_columns() {
-    let a = [any_cell(), any_cell()]; let b = [any_cell(), any_cell()];
+fn group_key_case(a: [Cell; 2], b: [Cell; 2]) {
     let ra = [val(a[0]), val(a[1])]; let rb = [val(b[0]), val(b[1])];
     let ka = core::mem::ManuallyDrop::new(compute_group_key_for_dynamic(&ExecutorRow::new(&ra), &[0, 1]));
     let kb = core::mem::ManuallyDrop::new(compute_group_key_for_dynamic(&ExecutorRow::new(&rb), &[0, 1]));
     let same_group = not_distinct(a[0], b[0]) && not_distinct(a[1], b[1]);
     let same_key = crate::common::lex_cmp(&ka, &kb) == core::cmp::Ordering::Equal;
-    kani::cover!(matches!(a[0], Cell::Null) && matches!(b[1], Cell::Null) && !same_group, "w:nulls_in_different_positions");
-    kani::cover!(same_group && matches!(a[0], Cell::Null), "w:null_groups_with_null");
     if same_group { assert!(same_key, "role=not_distinct_rows_share_a_group"); }
     if same_key { assert!(same_group, "role=distinct_rows_get_distinct_groups"); }
-}}
+}
+/// Builds the 4 grouping values with CONCRETE variants chosen by `mask` (bit i set = NULL), integer payloads arbitrary.
+fn masked(mask: u8, zero_only: bool) -> ([Cell; 2], [Cell; 2]) {
+    let mk = |bit: u8| -> Cell { if mask & bit != 0 { Cell::Null } else if zero_only { Cell::Int(0) } else { Cell::Int(kani::any()) } };
+    ([mk(1), mk(2)], [mk(4), mk(8)])
+}
+macro_rules! all_masks { ($zero:expr) => {{
+    let m: u8 = kani::any(); kani::assume(m < 16);
+    kani::cover!(m == 0b0110, "w:nulls_in_different_positions_mask");
+    // exhaustive split: inside each branch the NULL/non-NULL pattern is concrete, so the encoder's match is resolved
+    if m == 0 { let (a, b) = masked(0, $zero); group_key_case(a, b) } else if m == 1 { let (a, b) = masked(1, $zero); group_key_case(a, b) }
+    else if m == 2 { let (a, b) = masked(2, $zero); group_key_case(a, b) } else if m == 3 { let (a, b) = masked(3, $zero); group_key_case(a, b) }
+    else if m == 4 { let (a, b) = masked(4, $zero); group_key_case(a, b) } else if m == 5 { let (a, b) = masked(5, $zero); group_key_case(a, b) }
+    else if m == 6 { let (a, b) = masked(6, $zero); group_key_case(a, b) } else if m == 7 { let (a, b) = masked(7, $zero); group_key_case(a, b) }
+    else if m == 8 { let (a, b) = masked(8, $zero); group_key_case(a, b) } else if m == 9 { let (a, b) = masked(9, $zero); group_key_case(a, b) }
+    else if m == 10 { let (a, b) = masked(10, $zero); group_key_case(a, b) } else if m == 11 { let (a, b) = masked(11, $zero); group_key_case(a, b) }
+    else if m == 12 { let (a, b) = masked(12, $zero); group_key_case(a, b) } else if m == 13 { let (a, b) = masked(13, $zero); group_key_case(a, b) }
+    else if m == 14 { let (a, b) = masked(14, $zero); group_key_case(a, b) } else { let (a, b) = masked(15, $zero); group_key_case(a, b) }
+}}; }
+
+// @vt prop=C16 tier=quick bound="GROUP BY on two integer columns: all pairs of rows whose grouping values are NULL or 0 (all 16 NULL patterns)" outside="other integers in the quick tier (thorough: every i64)" timeout=900
+vt_proof! { unwind = 6; fn c16_group_key_null_positions() { all_masks!(true) }}
+
+// @vt prop=C16 tier=thorough bound="GROUP BY on two integer columns: ALL pairs of rows (each grouping value NULL or any i64, all 16 NULL patterns)" outside="more than two grouping columns; text keys (key injectivity per type: C26)" timeout=3600 mem=24
+vt_proof! { unwind = 20; fn c16_group_key_two_int_columns() { all_masks!(false) }}
